@@ -5,7 +5,7 @@ from vfw.lifecycle import E
 
 LEVEL = 'model_checking'
 ASSUMPTIONS = [
-    'same alphabet as C01 plus GetOperation, delete-study/re-create, malformed trial ids in metadata updates, early-stop recycle event',
+    'same alphabet as C01 plus a study created with unsorted / repeated spec metadata, GetOperation, delete-study/re-create, malformed trial ids in metadata updates, early-stop recycle event',
     'timestamps and error messages are not compared; list order of ListTrials/ListStudies IS compared',
     'the three backends are driven in lock-step from one action sequence; a diverging transition is reported and not explored further',
 ]
@@ -80,15 +80,19 @@ def run(ctx):
   multi = {'backends': ['ram', 'sqlmem'], 'model': False, 'multi': True, 'max_trials': 1, 'max_id': 2, 'clients': ('a',)}
   if ctx.quick:
     plans = [(base, 4),
+             (dict(base, starts=[[('CreateStudyMd', 's')]]), 2),      # from a study created with unsorted / repeated spec metadata
              (dict(multi, studies=('s_1', 'sx1', 'p@s_1')), 5),
              (dict(multi, studies=('S%', 's1', 'p@S%')), 4)]
   else:
     plans = [(dict(base, max_trials=3, max_meas=2, max_ops=3, max_id=5), 6),
+             (dict(base, starts=[[('CreateStudyMd', 's')]]), 4),
              (dict(multi, studies=('s_1', 'sx1', 'p@s_1'), backends=['ram', 'sqlmem', 'sqlfile'], max_trials=2, max_id=3), 7),
              (dict(multi, studies=('S%', 's1', 'p@S%', 'p@s1'), max_trials=2, max_id=3), 6)]
   cov = {'states': 0, 'transitions': 0, 'traces_validated_against_impl': 0, 'samples': [], 'runs': [], 'exhaustive': True}
   for cfg, depth in plans:
-    s = statespace.Search(ctx, 'expand', depth, cfg, chunk=8)
+    cfg = dict(cfg)
+    starts = cfg.pop('starts', None)
+    s = statespace.Search(ctx, 'expand', depth, cfg, chunk=8, starts=starts)
     fp = s.run()
     c = s.coverage(fp)
     if c['snapshot_vs_replay_mismatches']:
@@ -98,7 +102,7 @@ def run(ctx):
       cov[k] += c[k]
     cov['samples'] += c.pop('samples')[:4]
     cov['exhaustive'] = cov['exhaustive'] and c['exhaustive']
-    c['cfg'] = cfg
+    c['cfg'] = dict(cfg, starts=starts) if starts else cfg
     cov['runs'].append(c)
   cov['backends_compared'] = base['backends']
   return cov
